@@ -286,6 +286,7 @@ def trace_for(job, gbfile, prop, workdir, log, timeout=None):
     inputs = {}
     order = []
     raw = ''
+    trace_for.last_trace = []
     if rc is None:
         return inputs, order, 'trace run timed out'
     try:
@@ -298,6 +299,7 @@ def trace_for(job, gbfile, prop, workdir, log, timeout=None):
         for r in el['result']:
             if r.get('property') != prop or 'trace' not in r:
                 continue
+            trace_for.last_trace = r['trace']
             for st in r['trace']:
                 if st.get('stepType') != 'assignment':
                     continue
